@@ -6,21 +6,23 @@ import (
 	"bytes"
 	"fmt"
 	"math"
+	"strconv"
 	"strings"
 
 	bexpr "github.com/hashicorp/go-bexpr"
 	"github.com/hashicorp/go-bexpr/grammar"
 
 	"verifmc/eng"
+	"verifmc/vrt"
 )
 
 func init() {
 	eng.Register(&eng.Check{
 		ID:           "C11",
-		Rule:         "E2 + overlay accessor (grammar.VerifParse returns the parser's step counter): inputs = every token sequence of <=2 tokens (thorough <=3) of the C15 alphabet, the C15 derivation set, invalid variants, long inputs (300..4000 bytes) whose syntax error is found early or that are valid, and nested parentheses of depth 0..6 (thorough 0..8 unlimited, 9..11 limited-only) x budgets n: EVERY n in 1..N+2 when N<=600 (N = step count of the unlimited parse), otherwise {1,2,3, N/2, N-2..N+2, 2N, 2^64-1} and all powers of two <= 2^22; oracle: n=0 or n>=N gives exactly the unlimited result (same tree dump / same error text); 0<n<N gives a nil value and the max-expressions error (its text is learned from a budget-1 parse, not hard-coded); a limited parse executes at most n+1 steps; CreateEvaluator(WithMaxExpressions(n)) fails iff grammar.Parse(MaxExpressions(n)) fails; deep nesting is rejected within the budget (steps measured, no wall-clock oracle); the option given twice behaves as its last occurrence. Distinct by construction; non-trivial = (input, n) pairs with 0<n<N+3 (around or below the threshold).",
+		Rule:         "E2 + overlay accessor (grammar.VerifParse returns the parser's step counter): inputs = every token sequence of <=2 tokens (thorough <=3) of the C15 alphabet, the C15 derivation set, invalid variants, long inputs (300..4000 bytes) whose syntax error is found early or that are valid, and nested parentheses of depth 0..6 (thorough 0..8 unlimited, 9..11 limited-only) x budgets n: EVERY n in 1..N+2 when N<=600 (N = step count of the unlimited parse), otherwise {1,2,3, N/2, N-2..N+2, 2N, 2^64-1} and all powers of two <= 2^22; oracle: n=0 or n>=N gives exactly the unlimited result (same tree dump / same error text); 0<n<N gives a nil value and the max-expressions error (its text is learned from a budget-1 parse, not hard-coded); a limited parse executes at most n+1 steps - by the parser's own counter AND by an independent count (the overlay hooks every entry of parseExpr, over all parser instances of the process); CreateEvaluator(WithMaxExpressions(n)) fails iff grammar.Parse(MaxExpressions(n)) fails; deep nesting is rejected within the budget (steps measured, no wall-clock oracle); the option given twice behaves as its last occurrence. Distinct by construction; non-trivial = (input, n) pairs with 0<n<N+3 (around or below the threshold).",
 		Assumptions:  []string{"read-only accessor added by the generated overlay (build tag verif); /repo is not modified", "bounded input set and budget sweep as stated"},
 		Run:          runC11,
-		NeedsOverlay: "add",
+		NeedsOverlay: "full",
 	})
 }
 
@@ -28,7 +30,8 @@ type c11Res struct {
 	dump     string
 	errText  string
 	isNil    bool
-	steps    uint64
+	steps    uint64 // the parser's own counter
+	indep    uint64 // entries of parseExpr counted by the overlay hook, over ALL parser instances used during the call (0 = hook not attached)
 	panicked string
 }
 
@@ -38,6 +41,8 @@ func c11Parse(in []byte, opts ...grammar.Option) (r c11Res) {
 			r.panicked = fmt.Sprint(p)
 		}
 	}()
+	before := vrt.ParseSteps
+	defer func() { r.indep = vrt.ParseSteps - before }()
 	v, err, steps := grammar.VerifParse(in, opts...)
 	r.steps = steps
 	if err != nil {
@@ -67,6 +72,7 @@ func c11Inputs(thorough bool) []string {
 	for _, d := range c15Derivations(thorough) {
 		add(d)
 		add(d + " )")
+		add(strconv.Quote(d)) // the whole input one string literal (not an expression)
 		add("(" + d)
 	}
 	for _, t := range c15Tokens {
@@ -94,6 +100,7 @@ func c11Inputs(thorough bool) []string {
 }
 
 func runC11(c *eng.Ctx) {
+	hookMissing := false
 	ins := c11Inputs(c.Thorough())
 	maxUnlimitedDepth, maxDepth := 6, 8
 	if c.Thorough() {
@@ -131,6 +138,7 @@ func runC11(c *eng.Ctx) {
 		}
 		var base c11Res
 		var N uint64
+		_ = hookMissing
 		unlimited := depth <= maxUnlimitedDepth
 		if unlimited {
 			base = c11Parse([]byte(in))
@@ -141,6 +149,11 @@ func runC11(c *eng.Ctx) {
 			}
 			N = base.steps
 			c.MaxOf("max_N", int64(N))
+			if base.steps > 0 && base.indep == 0 && !hookMissing {
+				hookMissing = true // not an alarm: the bound is then only checked against the parser's own counter
+				c.Cap(fmt.Sprintf("shard %d: the overlay did not attach the independent step counter to (*parser).parseExpr (see .build/vinstr-full.log)", c.Shard))
+			}
+			c.MaxOf("max_independent_steps", int64(base.indep))
 		}
 		var budgets []uint64
 		if unlimited && N <= 600 {
@@ -177,6 +190,10 @@ func runC11(c *eng.Ctx) {
 			if r.panicked != "" {
 				c.Violate(eng.Violation{Kind: "panic", Key: key, Coords: co, Observed: r.panicked})
 				continue
+			}
+			if n != 0 && n != math.MaxUint64 && r.indep > n+1 {
+				c.Violate(eng.Violation{Kind: "budget-overrun-independent-count", Key: key, Coords: co, Expected: fmt.Sprintf("<= %d parser steps", n+1),
+					Observed: fmt.Sprintf("%d entries of parseExpr during the call (the parser's own counter says %d)", r.indep, r.steps)})
 			}
 			if n != 0 && n != math.MaxUint64 && r.steps > n+1 {
 				c.Violate(eng.Violation{Kind: "budget-overrun", Key: key, Coords: co, Expected: fmt.Sprintf("<= %d steps", n+1), Observed: fmt.Sprintf("%d steps", r.steps)})
